@@ -757,8 +757,9 @@ def run(out, ctx):
     out.notes.append("KISS-GP histories run under no_grad only: after a prediction made with autograd enabled the grid kernel caches a "
                      "non-leaf tensor and get_fantasy_model raises in deepcopy (a fresh fantasy call raises as well; source restored "
                      "since /repo 5e27225) - treated as outside 'supported', see C03")
-    out.tested_not_proved = ["WISKI: from the updated interpolation-space caches to the posterior (Woodbury / root decompositions); "
-                             "only the additivity of the two caches is proved (c04_wiski_*_partial)",
+    out.tested_not_proved = ["WISKI: numerics of the jittered Cholesky / low-rank roots the code takes of the updated interp_inner_prod "
+                             "(the step from the updated caches to the C01 posterior is proved for ANY exact root: "
+                             "c04_wiski_fantasy_mean_is_c01_posterior / c04_wiski_fantasy_cov_is_c01_posterior)",
                              "IndependentModelList.get_fantasy_model (compared with its members' fantasy models and fresh models)",
                              "agreement of torch/linear_operator numerics (Cholesky, triangular inverse) with exact algebra",
                              "batch-shape reconciliation of get_fantasy_model (checked per batch element against the specification "
